@@ -117,7 +117,7 @@ pub fn run(ctx: &Arc<Ctx>) {
     let _ = g0();
     ctx.set_rule("P = [b]P1, Q = [a]P2 for a, b in {1,2,3,N-1,N-2,2^128,Annex ks,seeded}: full product a x b with both inputs affine, compared byte for byte (384 bytes) with e(P1,P2)^(ab) computed by the reference; the diagonal and a spread of pairs additionally against a full reference evaluation (generic Miller loop over 6t+2, two Frobenius steps, exponent (p^12-1)/N) on those very points; every pair again with Jacobian inputs Z != 1 (P, Q, both); structured Z (Q.z in Fp, purely imaginary, P.z in {2, p-1}); identity arguments (a or b = 0 mod N) give 1; bilinearity re-evaluated with the library's own GT exponentiation incl. exponents with all-zero 64-bit limbs and the boundary exponents N-1, N-2; e(P1,P2) != 1 and of order N; the GM/T 0044.5 value of e(P1,Ppub-s).");
     let mut g = SplitMix::new(ctx.seed, "c12");
-    let nseed = ctx.tier.pick(4usize, 26);
+    let nseed = ctx.tier.pick(4usize, 60);
     let mut sc: Vec<(String, BigUint)> = vec![
         ("1".into(), BigUint::one()),
         ("2".into(), BigUint::from(2u32)),
